@@ -122,6 +122,7 @@ class Run(object):
         self.exc = False
         self.errors = []
         self.nlog = 0
+        self.evq = []            # Tor's announcements not yet delivered: (lower-case option name, values)
         self.proto.makeConnection(self.tr)
         self.sim.pump()
 
@@ -132,10 +133,40 @@ class Run(object):
         return dict((r, self.opt[r][2]) for r in self.opt)
 
     def apply_setconf(self, line):
-        for key in set(k for k, v in parse_setconf(line)):
-            vals = [v for k, v in parse_setconf(line) if k == key]
-            self.sim.conf[key.lower()] = [] if vals == [""] else vals
+        """Tor applies the SETCONF and queues one announcement naming every option whose value changed"""
+        seen, changed = [], []
+        for key, _ in parse_setconf(line):
+            if key.lower() in seen:
+                continue
+            seen.append(key.lower())
+            vals = [v for k, v in parse_setconf(line) if k.lower() == key.lower()]
+            new = [] if vals == [""] else vals
+            old = self.sim.conf.get(key.lower()) or []
+            self.sim.conf[key.lower()] = new
+            if new != old:
+                changed.append((key.lower(), list(new)))
+        if changed:
+            self.evq.append(changed)
         return b"250 OK\r\n"
+
+    def announce(self, changes):
+        text = "650-CONF_CHANGED\r\n"
+        for lname, vals in changes:
+            name = [n for (n, t, c) in self.opt.values() if n.lower() == lname][0]
+            if vals:
+                for v in vals:
+                    text += "650-%s=%s\r\n" % (name, v)
+            else:
+                text += "650-%s\r\n" % name
+        text += "650 OK\r\n"
+        self.sim.event(text)
+
+    def concrete(self, chs):
+        out = []
+        for c in chs:
+            name, typ, conc = self.opt[c["o"]]
+            out.append((name.lower(), [conc[t] for t in c["v"]]))
+        return out
 
     def role_of(self, name):
         for r, (n, t, c) in self.opt.items():
@@ -213,18 +244,16 @@ class Run(object):
                 self.sim.release()
             elif a == "SaveReject":
                 self.sim.release(b"552 Unrecognized option: Failing.\r\n")
-            elif a == "ConfChanged":
-                name, typ, conc = self.opt[e["o"]]
-                vals = [conc[t] for t in e["v"]]
-                self.sim.conf[name.lower()] = vals
-                text = "650-CONF_CHANGED\r\n"
-                if vals:
-                    for v in vals:
-                        text += "650-%s=%s\r\n" % (name, v)
-                else:
-                    text += "650-%s\r\n" % name
-                text += "650 OK\r\n"
-                self.sim.event(text)
+            elif a == "OtherChange":
+                changes = self.concrete(e["chs"])
+                for lname, vals in changes:
+                    self.sim.conf[lname] = vals
+                self.evq.append(changes)
+            elif a == "Deliver":
+                changes = self.evq.pop(0)
+                if changes != self.concrete(e["chs"]):
+                    raise RuntimeError("harness: the script delivers %r but Tor's queue has %r" % (self.concrete(e["chs"]), changes))
+                self.announce(changes)
             else:
                 raise ValueError(a)
         except Exception:
